@@ -136,11 +136,20 @@ def is_conc_int(e):
     return z3.is_int_value(e)
 
 
+_IV = {}
+
+
 def iv(x):
     """python int / z3 expr -> z3 Int expr"""
-    if z3.is_expr(x):
+    if isinstance(x, z3.ExprRef):
         return x
-    return z3.IntVal(int(x))
+    x = int(x)
+    r = _IV.get(x)
+    if r is None:
+        r = z3.IntVal(x)
+        if -4096 <= x <= 70000:
+            _IV[x] = r
+    return r
 
 
 class SSeq(object):
@@ -150,14 +159,27 @@ class SSeq(object):
     def __init__(self, n, at, kind='bytes', elem='int'):
         self.n = simp(iv(n))
         self._at = at
+        self._memo = {}
         self.kind = kind
         self.elem = elem
 
     def at(self, i):
+        if isinstance(i, int):
+            c = self._memo.get(i)
+            if c is None:
+                c = self._memo[i] = self._at(iv(i))
+            return c
+        if z3.is_int_value(i):
+            k = i.as_long()
+            c = self._memo.get(k)
+            if c is None:
+                c = self._memo[k] = self._at(i)
+            return c
         return self._at(i)
 
     def set(self, n, at):
         self.n, self._at = simp(iv(n)), at
+        self._memo = {}
 
     def copy(self, kind=None):
         return SSeq(self.n, self._at, kind or self.kind, self.elem)
